@@ -15,6 +15,8 @@ import (
 )
 
 var initProf = os.Getenv("VX_INITPROF") != ""
+var traceFn = os.Getenv("VX_TRACE")
+var traceOn = traceFn != ""
 
 // goPanic is a panic of the interpreted program.
 type goPanic struct {
@@ -66,6 +68,7 @@ type Interp struct {
 	divMemo   map[divKey][2]*Term
 	lemmaRec  map[string][]lemmaRecord
 	lemmaUses int
+	lazyCount int
 }
 
 type divKey struct {
@@ -497,6 +500,13 @@ func (in *Interp) runFrame(fr *frame) {
 			} else {
 				k = in.visitInstr(fr, instr)
 			}
+			if traceOn && strings.Contains(fr.fn.String(), traceFn) {
+				if v, ok := instr.(ssa.Value); ok {
+					fmt.Fprintf(os.Stderr, "TRACE %s: %s = %s  => %s\n", fr.fn.Name(), v.Name(), instr.String(), showValue(fr.env[v], 0))
+				} else {
+					fmt.Fprintf(os.Stderr, "TRACE %s: %s\n", fr.fn.Name(), instr.String())
+				}
+			}
 			if k == kReturn {
 				return
 			}
@@ -597,13 +607,36 @@ func (in *Interp) storePtr(p Value, v Value) {
 		if p == nil {
 			in.throw("invalid memory address or nil pointer dereference")
 		}
-		*p = copyVal(v)
+		assignInPlace(p, v)
 		return
 	case *idxPtr:
 		in.storeIdx(p, v)
 		return
 	}
 	panic(fmt.Sprintf("store through %T", p))
+}
+
+// assignInPlace stores v into the cell *dst.  Structs and arrays are written
+// element by element into the existing storage, so that addresses of fields
+// and elements taken before the store stay valid (as in real memory).
+func assignInPlace(dst *Value, v Value) {
+	switch nv := v.(type) {
+	case Struct:
+		if old, ok := (*dst).(Struct); ok && len(old) == len(nv) {
+			for i := range nv {
+				assignInPlace(&old[i], nv[i])
+			}
+			return
+		}
+	case Array:
+		if old, ok := (*dst).(Array); ok && len(old) == len(nv) {
+			for i := range nv {
+				assignInPlace(&old[i], nv[i])
+			}
+			return
+		}
+	}
+	*dst = copyVal(v)
 }
 
 func (in *Interp) visitInstr(fr *frame, instr ssa.Instruction) continuation {
@@ -941,6 +974,21 @@ func (in *Interp) concInt(v Value) int64 {
 func (in *Interp) typeAssert(instr *ssa.TypeAssert, x Iface) Value {
 	var v Value
 	err := ""
+	if lv, ok := isLazy(x); ok {
+		if it, isI := instr.AssertedType.Underlying().(*types.Interface); isI && it.NumMethods() == 0 {
+			// assertion to `any`: succeeds unless nil
+			if in.lazyNil(lv) {
+				x = Iface{}
+			} else {
+				if instr.CommaOk {
+					return Tuple{x, trueT}
+				}
+				return x
+			}
+		} else {
+			x = in.lazyAs(lv, instr.AssertedType)
+		}
+	}
 	if x.t == nil {
 		err = fmt.Sprintf("interface conversion: interface is nil, not %s", instr.AssertedType)
 	} else if idst, ok := instr.AssertedType.Underlying().(*types.Interface); ok && !isTypeParam(instr.AssertedType) {
